@@ -14,8 +14,8 @@ from vlib.runner import REPO_DIR, VERIF_DIR, HarnessError, Outcome, Sub
 
 ID = "C17"
 LEVEL = "fault_enumeration"
-RULE = ("(crash, exhaustive) for two writers - SimpleProcessTensor.export and a file-backed PT-TEMPO run, N=3 (quick) / 3..6 "
-        "(thorough) steps - a child process is made to die after EVERY file operation (after each tensor write incl. the "
+RULE = ("(crash, exhaustive) for two writers - SimpleProcessTensor.export and a file-backed PT-TEMPO run, N=3 (quick) / 3, 4, 6 "
+        "and an 8-step export with 64x64x4x4 tensors (1 MB each, so HDF5 flushes by itself; thorough) steps - a child process is made to die after EVERY file operation (after each tensor write incl. the "
         "initial-tensor write at creation, each MPO tensor, each cap, and at entry of close) in each of four crash modes "
         "(SIGKILL, os._exit, unhandled exception followed by normal interpreter shutdown, SIGKILL after an HDF5 flush); the "
         "file is then opened with import_process_tensor as 'file' and 'simple'. Oracle: the reader raises or warns 'may be "
@@ -61,9 +61,11 @@ def ops_count(writer, N):
 
 def crash_cases(tier):
     cases = []
-    Ns = [3] if tier == "quick" else [3, 4, 6]
+    Ns = [3] if tier == "quick" else [3, 4, 6, 108]
     for writer in ("export", "pttempo"):
         for N in Ns:
+            if N >= 100 and writer != "export":
+                continue
             n = ops_count(writer, N)
             for mode in MODES:
                 for k in list(range(1, n + 1)) + [-1]:
@@ -113,7 +115,7 @@ def run_crash(case):
                 status, exc, info = _read(fn, typ)
                 if status != "silent":
                     out.fail("complete-file-" + status, f"import type {typ}: {exc}")
-                elif info != (case["N"], case["N"] + 1):
+                elif info != (case["N"] % 100, case["N"] % 100 + 1):
                     out.fail("complete-file-content", f"import type {typ}: (len, caps) = {info}")
             return out
         if r.returncode == 0:
